@@ -156,15 +156,13 @@ theorem svMat2_apply (k d0 d1 : Nat) (a b : Nat → α) (hk : 0 < k) (h0 : 0 < d
     svMat2 k d0 d1 a b ((j * k + j') * (d0 * d1) + (s * d1 + t)) = a (j * d0 + s) * b (j' * d1 + t) := by
   let y : Nat → Nat := fun m => if m = 0 then j else if m = 1 then j' else if m = 2 then s else t
   have hperm : Toq.C01.IsPermN 4 (swapPerm 1 2) := Toq.C01.swapPerm_isPerm 4 1 2 (by omega) (by omega)
-  have hd : ∀ m, m < 4 → 0 < svDims k d0 d1 m := by
-    intro m _; unfold svDims; split_ifs <;> assumption
   have hy : ∀ m, m < 4 → y m < svDims k d0 d1 (swapPerm 1 2 m) := by
     intro m _; rw [svDims_swap]; simp only [y]; split_ifs <;> assumption
   have hidx : (j * k + j') * (d0 * d1) + (s * d1 + t) = enc (fun m => svDims k d0 d1 (swapPerm 1 2 m)) y 4 := by
     simp only [enc, svDims_swap, y]
     simp; ring
   unfold svMat2
-  rw [hidx, Toq.C01.permuteVec_relabel _ 4 _ _ y hperm hd hy]
+  rw [hidx, Toq.C01.permuteVec_relabel _ 4 _ _ y hperm hy]
   have hinv : ∀ m, m < 4 → invPerm 4 (swapPerm 1 2) m = swapPerm 1 2 m := by decide
   have hidx2 : enc (svDims k d0 d1) (fun m => y (invPerm 4 (swapPerm 1 2) m)) 4 = (j * d0 + s) * (k * d1) + (j' * d1 + t) := by
     simp only [enc]
